@@ -164,9 +164,8 @@ func (p Polynomial) EvaluateModP(xInt, PInt *big.Int) (yInt *big.Int) {
 		yInt.Add(yInt, p.Coeffs[i].Int())
 	}
 
-	if yInt.Cmp(new(big.Int)) == -1 {
-		yInt.Add(yInt, PInt)
-	}
+	// The last addition is not reduced, and a coefficient can be negative or larger than P
+	yInt.Mod(yInt, PInt)
 
 	return
 }
